@@ -118,6 +118,7 @@ def run(ctx):
     if n3 < 8:
         ctx.fail(f"LOAD-ALIAS: only {n3} callers of load_std_type found (confirmed: 10)")
     rule_apply_always(ctx)
+    rule_copy_and_guard(ctx)
 
     from rules import C24
     RS = "STD-SIBLING"
@@ -148,6 +149,69 @@ def rule_fuse_curves(ctx):
                            f"curve from {keys} under guard on {guard}", fi.loc(st))
     if n < 3:
         ctx.fail(f"Fuse.__init__: only {n} create_characteristic calls found (confirmed: 3)")
+
+
+def _key_txt(node):
+    """text of a literal / f-string dictionary key, None for anything else"""
+    if isinstance(node, ast.Constant) and isinstance(node.value, str):
+        return repr(node.value)
+    if isinstance(node, ast.JoinedStr):
+        return ast.unparse(node)
+    return None
+
+
+def rule_copy_and_guard(ctx):
+    R = "COPY-FORWARD"
+    ctx.rule(R, "create_std_types and copy_std_types hand every type, and their own `overwrite` switch, on to create_std_type: the "
+                "call is not skipped for names that exist in the target, and `overwrite` is passed as given")
+    for fn_name in ("create_std_types", "copy_std_types"):
+        fi = ctx.repo.func(f"pandapower.std_types:{fn_name}")
+        loops = [n for n in fi.node.body if isinstance(n, ast.For)]
+        calls = [c for lp in loops for c in ast.walk(lp) if isinstance(c, ast.Call) and dotted(c.func) == "create_std_type"]
+        if not calls:
+            ctx.fail(f"{fn_name}: loop calling create_std_type not found")
+        c = calls[0]
+        kw = next((k.value for k in c.keywords if k.arg == "overwrite"), c.args[4] if len(c.args) > 4 else None)
+        fwd = isinstance(kw, ast.Name) and kw.id == "overwrite"
+        skips = [x for lp in loops for x in ast.walk(lp) if isinstance(x, (ast.Continue, ast.Break))]
+        direct = any(isinstance(st, ast.Expr) and st.value is c for lp in loops for st in lp.body)
+        ok = fwd and not skips and direct
+        ctx.ob(R, f"pandapower.std_types::{fn_name}::forward", ok,
+               "every type is passed to create_std_type with overwrite=overwrite" if ok else
+               (f"create_std_type is called with overwrite={ast.unparse(kw) if kw is not None else '<default True>'}" if not fwd else
+                "the loop skips some types before create_std_type is reached") +
+               ": whether an existing type of the same name is replaced no longer follows the caller's switch, so a copied type can "
+               "come back from load_std_type with the old data", fi.loc(c))
+    R2 = "GUARD-KEY"
+    ctx.rule(R2, "in the transformer creators, a value taken from `entries` under a membership test `K in entries` is read with the "
+                 "tested key K (the tap-changer loop formats its keys with the loop variable: a literal key of the first tap changer "
+                 "inside the loop gives the second tap changer the first one's neutral position)")
+    n = 0
+    m = ctx.repo.module("pandapower.create.trafo_create")
+    for fi in m.functions.values():
+        for lp in [x for x in ast.walk(fi.node) if isinstance(x, ast.For)]:
+            loopvars = names_in(lp.target)
+            for br in [x for x in ast.walk(lp) if isinstance(x, ast.If)]:
+                tested = set()
+                for cmp_ in ast.walk(br.test):
+                    if isinstance(cmp_, ast.Compare) and len(cmp_.ops) == 1 and isinstance(cmp_.ops[0], ast.In) and \
+                            isinstance(cmp_.comparators[0], ast.Name) and _key_txt(cmp_.left) and names_in(cmp_.left) & loopvars:
+                        tested.add((cmp_.comparators[0].id, _key_txt(cmp_.left)))
+                if not tested:
+                    continue
+                for st in br.body:
+                    for sub in ast.walk(st):
+                        if isinstance(sub, ast.Subscript) and isinstance(sub.ctx, ast.Load) and isinstance(sub.value, ast.Name) and \
+                                sub.value.id in {d for d, _ in tested} and _key_txt(sub.slice):
+                            n += 1
+                            key = _key_txt(sub.slice)
+                            ok = (sub.value.id, key) in tested or bool(names_in(sub.slice) & loopvars)
+                            ctx.ob(R2, f"{m.name}::{fi.qualname}::{sub.value.id}[{key}]", ok,
+                                   f"{sub.value.id}[{key}] is read under its own membership test" if ok else
+                                   f"`{norm(st, 80)}` reads {sub.value.id}[{key}] under the test for {sorted(k for _, k in tested)}: the "
+                                   "key does not follow the loop variable, every pass of the loop reads the same entry", fi.loc(sub))
+    if n < 1:
+        ctx.fail("GUARD-KEY: no guarded read of `entries` found in the tap-changer loops of trafo_create (confirmed: 1+)")
 
 
 def rule_apply_always(ctx):
@@ -206,6 +270,15 @@ def rule_apply_always(ctx):
         ctx.fail(f"create_lines: only {n3} optional-parameter guards of the list branch found (confirmed: 2)")
 
 
+def variants_r5(V):
+    st = "pandapower/std_types.py"
+    tc = "pandapower/create/trafo_create.py"
+    return [
+        V("copy keeps existing types", st, in_function("copy_std_types", lambda s: s.replace("        create_std_type(to_net, typdata, name, element=element, overwrite=overwrite)\n", "        if name in to_net.std_types[element] and overwrite:\n            continue\n        create_std_type(to_net, typdata, name, element=element)\n", 1)), "copy_std_types::forward"),
+        V("second tap changer starts at the first one's neutral", tc, in_function("create_transformer", replace_once('entries[f"tap{s}_pos"] = entries[f"tap{s}_neutral"]', 'entries[f"tap{s}_pos"] = entries["tap_neutral"]')), "GUARD-KEY"),
+    ]
+
+
 def variants(repo):
     st = "pandapower/std_types.py"
     lc = "pandapower/create/line_create.py"
@@ -222,4 +295,4 @@ def variants(repo):
         V("creator ignores g", lc, in_function("create_line", lambda s: s.replace('entries["g_us_per_km"] = lineparam["g_us_per_km"] if "g_us_per_km" in lineparam else 0.0', 'entries["g_us_per_km"] = 0.0', 1)), "STD-SIBLING"),
         V("trafo creator ignores pfe", tc, in_function("create_transformer", replace_once('        "pfe_kw": ti["pfe_kw"],\n', '        "pfe_kw": 0.,\n')), "basic_trafo_std_types::pfe_kw"),
         V("twin: private copy then mutate", lc, in_function("create_line", replace_once('    lineparam = load_std_type(net, std_type, "line")\n', '    lineparam = load_std_type(net, std_type, "line")\n    lineparam = dict(lineparam)\n    lineparam["max_i_ka"] = lineparam["max_i_ka"] * 1.0\n')), None),
-    ]
+    ] + variants_r5(Variant)
